@@ -78,6 +78,20 @@ def make_case(family, i, rng, tier):
                      'inner': [[], []], 'z': compress})
     items.append({'kind': 'text', 'text': u'€uro \U0001F600 ' * 6,
                   'cuts': [], 'lenforms': [None], 'inner': [], 'z': compress})
+    if rng.random() < 0.3:
+        # the first data message of the last connection is a fragmented
+        # BINARY message whose continuation frames are not UTF-8
+        items.insert(0, {'kind': 'binary', 'hex': (b'\xff\xfe\x80\xc0' * 8).hex(),
+                         'cuts': [5, 13], 'lenforms': [None, None, None],
+                         'inner': [[], []], 'z': False})
+    for e in prev:
+        if compress and rng.random() < 0.4:
+            e['ext'] = rng.choice(['server_no_context_takeover',
+                                   'client_no_context_takeover',
+                                   'server_max_window_bits=9',
+                                   'client_max_window_bits=9',
+                                   'server_no_context_takeover; '
+                                   'client_no_context_takeover'])
     for e in prev:
         e['declines'] = compress and rng.random() < 0.25 and e['kind'] not in (
             'mid_compressed', 'inflate_error', 'sent_compressed')
@@ -102,7 +116,11 @@ def _prev_conn(e, compress, attempt):
     """-> (conn spec, app rules) for an earlier connection."""
     k = e['kind']
     how = e.get('how', 'eof')
-    hs = S.handshake_steps([EXT] if compress and not e.get('declines')
+    ext = EXT
+    if e.get('ext'):
+        # an earlier server negotiated other parameters than the last one
+        ext = EXT + b'; ' + e['ext'].encode()
+    hs = S.handshake_steps([ext] if compress and not e.get('declines')
                            else ())
     end = {'op': how, 'after': 1009}
     rules = []
